@@ -137,6 +137,9 @@ def replay(case):
                     m2.loads(json.dumps({"header": {"version": "1.1", "type": "productmd.rpms"}, "payload": {"compose": dict(COMPOSE), "rpms": {
                         "Old": {"src": {"old-0:1-1.src": {"old-0:1-1.src": {"path": "Old/source/old.src.rpm", "sigkey": None, "category": "source"}}}}}}}))
                 m2.loads(doc03_text(ev["doc"], names, arches, "rpm" if rot % 3 == 2 else "canon"))
+                if rot % 2 == 0:
+                    # the same document read once more into the same object: the same content, not what was left of it
+                    m2.loads(doc03_text(ev["doc"], names, arches, "rpm" if rot % 3 == 2 else "canon"))
                 m = m2
         except (ValueError, TypeError) as e:
             out, exc = "refused", e
